@@ -1,4 +1,5 @@
 import TrackpyV.Proofs.Bandpass
+import TrackpyV.Proofs.BandpassND
 /-!
 # C10 — bandpass is the documented filter and nothing else
 
@@ -11,10 +12,12 @@ pixel array; nothing is bounded.
 * `bandpass_pixel`, `bandpass_zero_or_ge_thr`, `bandpass_nonneg` — every output pixel is the
   unclipped `lowpass − boxcar` value when that is ≥ threshold and 0 otherwise;
 * `bandpass_homogeneous` — scaling image and threshold by `c > 0` scales the result by `c`;
-* `bandpass_transpose` (2-D) — commutes with transposition (parameters swapped with the axes);
-* `lowpass_is_convolution`, `boxcar_is_box_mean` (2-D) — the axis-by-axis passes are the
-  2-D correlation with the outer-product kernel on the zero-extended image, resp. the mean over
-  the `m₀ × m₁` box on the edge-replicated image.
+* `bandpass_transpose` (2-D, executable transpose), `bandpass_swap_axes` (any dimension, two
+  adjacent axes) — commutes with transposition (parameters exchanged with the axes);
+* `lowpass_is_convolution*`, `boxcar_is_box_mean*` (2-D explicit double sums; `_nd`: any
+  dimension) — the axis-by-axis passes are the correlation with the outer-product kernel on the
+  zero-extended image, resp. the mean over the `Π mₐ` box on the edge-replicated image;
+* `bandpass_is_documented_filter` — the first sentence of the property, any dimension.
 -/
 namespace TrackpyV.Bandpass
 
@@ -190,16 +193,16 @@ theorem bandpass_default_thr (shape : List Nat) (img : Array Rat) (lshort : List
     bandpass shape img lshort kernels llong none =
       bandpass shape img lshort kernels llong (some (1 / 255)) := rfl
 
-/-! ## transposition (2-D)
+/-! ## transposition (2-D, executable transpose)
 
--- FULL (not proved): for every dimension `n` and every permutation `π` of the axes,
---   bandpass (π·shape) (permuteAxes π img) (π·lshort) (π·kernels) (π·llong) thr
---     = (bandpass shape img lshort kernels llong thr).map (permuteAxes π).
--- Proved below for n = 2 (`bandpass_transpose`, the only non-trivial permutation).  The generic
--- ingredients hold in any dimension (`apply_comm`: passes along different axes are commuting
--- linear maps; `passes_scale`, `size_passes`), what is missing is the flat-index bookkeeping of
--- `axisPass` for n ≥ 3.  In 3-D the clause is exercised on every run with random axis
--- permutations on the implementation (harness `transpose_checked`).
+The statement for any dimension is `bandpass_swap_axes` below (exchange of two adjacent axes,
+relation `IsSwap` between the two images).
+-- FULL (not proved as one theorem): for an arbitrary permutation `π` of the axes,
+--   bandpass (π·shape) (π·img) (π·lshort) (π·kernels) (π·llong) thr = π·(bandpass shape img …).
+-- Every permutation is a product of exchanges of adjacent axes, and `bandpass_swap_axes` can be
+-- chained along such a product (`IsSwap` composes, the per-axis lists are exchanged step by
+-- step); that chaining is not formalised.  Random axis permutations are exercised on the
+-- implementation in 3-D on every run (harness `transpose_checked`).
 -/
 
 theorem lowpass_transpose {H W : Nat} {img : Array Rat} (hsz : img.size = H * W)
@@ -241,65 +244,10 @@ theorem bandpass_transpose (H W : Nat) (img : Array Rat) (hsz : img.size = H * W
         subArr_transpose2 (by simpa using hsz) (by simpa using hsz),
         map_transpose2 _ (clip_zero _)]
 
-/-! ## the axis-by-axis passes are the documented 2-D filters
+/-! ## the axis-by-axis passes are the documented filters: 2-D, explicit double sums
 
--- FULL (not proved): the n-D analogues — `lowpass` = n-fold sum over the outer product of the
--- per-axis kernels on the zero-extended image, `boxcar` = mean over the `Π llongₐ` box of the
--- edge-replicated image.  Proved below for 2-D images; for 3-D images the per-run numpy oracle
--- (explicit n-D sums over the padded image) stands in.
--/
-
-/-- a line extended by zeros, indexed by integers -/
-def extZ (n : Nat) (g : Nat → Rat) (z : Int) : Rat := if 0 ≤ z ∧ z < n then g z.toNat else 0
-
-/-- pixel `(y, x)` of the `H × W` image `img`, **zero beyond the border** -/
-def pxZ (H W : Nat) (img : Array Rat) (y x : Int) : Rat :=
-  extZ H (fun t => extZ W (fun u => px W img t u) x) y
-
-/-- index clamped into `0 … n-1` -/
-def clampI (n : Nat) (z : Int) : Nat := min (n - 1) z.toNat
-
-/-- pixel `(y, x)` of the `H × W` image `img`, **edge values repeated** -/
-def pxC (H W : Nat) (img : Array Rat) (y x : Int) : Rat := px W img (clampI H y) (clampI W x)
-
-theorem sample_corr (w : Array Rat) (n i j : Nat) (g : Nat → Rat) :
-    sample g ((corr w).src n i j) = extZ n g ((i : Int) + (j : Int) - ((w.size / 2 : Nat) : Int)) := by
-  simp only [corr, extZ]
-  by_cases h : w.size / 2 ≤ i + j ∧ i + j - w.size / 2 < n
-  · rw [if_pos h, if_pos (by omega)]
-    simp only [sample]
-    congr 1; omega
-  · rw [if_neg h, if_neg (by omega)]
-    rfl
-
-theorem sample_unif (m n i j : Nat) (g : Nat → Rat) :
-    sample g ((unif m).src n i j) = g (clampI n ((i : Int) + (j : Int) - ((m / 2 : Nat) : Int))) := by
-  simp only [unif, sample, clampI]
-  congr 1; omega
-
-/-- the kernel in force on an axis: the given one if `σ > 0`, otherwise the axis is skipped, which
-    is the same as the one-tap kernel `(1)` (a Gaussian of width 0) -/
-def effKernel (s : Rat) (k : Array Rat) : Array Rat := if s > 0 then k else #[1]
-
-/-- the box side in force on an axis: `size` if `> 1`, otherwise the axis is skipped (side 1) -/
-def effSize (l : Int) : Nat := if l > 1 then l.toNat else 1
-
-theorem lowFilt_apply (s : Rat) (k : Array Rat) {n i : Nat} (hi : i < n) (g : Nat → Rat) :
-    (lowFilt s k).apply n i g = (corr (effKernel s k)).apply n i g := by
-  unfold lowFilt effKernel
-  split
-  · rfl
-  · rw [apply_skip]
-    simp [Filt.apply, corr, sumTo, sample, TrackpyV.Bandpass.get, hi]
-
-theorem boxFilt_apply (l : Int) {n i : Nat} (hi : i < n) (g : Nat → Rat) :
-    (boxFilt l).apply n i g = (unif (effSize l)).apply n i g := by
-  unfold boxFilt effSize
-  split
-  · rfl
-  · rw [apply_skip]
-    have : min (n - 1) i = i := by omega
-    simp [Filt.apply, unif, sumTo, sample, this]
+(the statements for any dimension are `lowpass_is_convolution_nd`, `boxcar_is_box_mean_nd`,
+`bandpass_is_documented_filter` below) -/
 
 /-- **"the image convolved with the truncated normalised Gaussian of width lshort (zero beyond the
     border)"**, 2-D, every combination of smoothed / skipped axes: pixel `(r, c)` of `lowpass` is
@@ -416,6 +364,114 @@ theorem boxcar_is_box_mean (H W : Nat) (img : Array Rat) (hsz : img.size = H * W
   have := boxcar_is_box_mean_gen H W img hsz l0 l1 r c hr hc
   simpa only [effSize, gt_iff_lt, hl0, hl1, if_true] using this
 
+/-! ## any dimension
+
+`pxN sh img ix` is pixel `ix` (a multi-index valid for the shape `sh`) of the C-ordered image. -/
+
+/-- **"the image convolved with the truncated normalised Gaussian … (zero beyond the border)"**,
+    any dimension: pixel `ix` of `lowpass` is the n-fold sum
+    `Σ_{a₀} k₀[a₀] Σ_{a₁} k₁[a₁] … img(i₀ + a₀ − c₀, i₁ + a₁ − c₁, …)` over the zero-extended image
+    (`corrSum`), with the kernels in force on the axes. -/
+theorem lowpass_is_convolution_nd (sh : List Nat) (img : Array Rat) (hsz : img.size = sh.prod)
+    (sigma : List Rat) (kernels : List (Array Rat)) (ix : List Nat) (hv : Valid sh ix) :
+    pxN sh (lowpass sh img sigma kernels) ix =
+      corrSum (effKernels sigma kernels) sh (pxN sh img) ix := by
+  unfold lowpass
+  rw [pxN_passes sh _ (srcOK_zipFilt sigma kernels) img hsz ix hv, sem_lowpass sh _ _ _ ix hv]
+
+/-- **"its rolling average over a box of side llong (edge values repeated)"**, any dimension:
+    pixel `ix` of `boxcar` is the sum over the `Π mₐ` box of the edge-replicated image (`boxSum`)
+    divided by `Π mₐ`, with the sides in force on the axes. -/
+theorem boxcar_is_box_mean_nd (sh : List Nat) (img : Array Rat) (hsz : img.size = sh.prod)
+    (size : List Int) (hl : size.length ≤ sh.length) (ix : List Nat) (hv : Valid sh ix) :
+    pxN sh (boxcarRaw sh img size) ix =
+      boxSum (effSizes size) sh (pxN sh img) ix / prodQ (effSizes size) := by
+  unfold boxcarRaw
+  rw [pxN_passes sh _ (srcOK_mapBox size) img hsz ix hv, sem_boxcar sh _ _ ix hv hl]
+
+/-- **the first sentence of the property, any dimension**: every pixel of an accepted `bandpass`
+    is the n-D Gaussian correlation of the zero-extended image minus the box mean of the
+    edge-replicated image when that difference is `≥ threshold`, and 0 otherwise. -/
+theorem bandpass_is_documented_filter (sh : List Nat) (img : Array Rat) (hsz : img.size = sh.prod)
+    (lshort : List Rat) (kernels : List (Array Rat)) (llong : List Int) (thr : Option Rat)
+    (out : Array Rat) (h : bandpass sh img lshort kernels llong thr = .ok out)
+    (ix : List Nat) (hv : Valid sh ix) :
+    pxN sh out ix =
+      clip (thrOf thr)
+        (corrSum (effKernels lshort kernels) sh (pxN sh img) ix -
+         boxSum (effSizes llong) sh (pxN sh img) ix / prodQ (effSizes llong)) := by
+  have hacc := ((bandpass_ok_iff _ _ _ _ _ _ _).mp h).1
+  have hp : flat sh ix < img.size := by rw [hsz]; exact flat_lt hv
+  have := bandpass_pixel sh img lshort kernels llong thr out h (flat sh ix) hp
+  unfold pxN at *
+  rw [this]
+  have e1 := lowpass_is_convolution_nd sh img hsz lshort kernels ix hv
+  have e2 := boxcar_is_box_mean_nd sh img hsz llong (Nat.le_of_eq hacc.2.2.1) ix hv
+  unfold pxN at e1 e2
+  rw [e1, e2]
+  rfl
+
+/-- how two results correspond when axes `k`, `k+1` are exchanged: same error, or
+    axis-exchanged images -/
+def SwapRel (k : Nat) (sh : List Nat) : Except Err (Array Rat) → Except Err (Array Rat) → Prop
+  | .ok out, .ok out' => IsSwap k sh out out'
+  | .error e, .error e' => e = e'
+  | .ok _, .error _ => False
+  | .error _, .ok _ => False
+
+/-- **"commutes with transposition"**, any dimension, for the exchange of two adjacent axes (every
+    permutation of the axes is a product of such exchanges): if `img'` is `img` with axes `k`, `k+1`
+    exchanged, then `bandpass` of `img'` with all per-axis parameters exchanged likewise is
+    `bandpass` of `img` with axes `k`, `k+1` exchanged, pixel for pixel (and refuses the same
+    arguments). -/
+theorem bandpass_swap_axes (k : Nat) (sh : List Nat) (img img' : Array Rat)
+    (himg : IsSwap k sh img img') (lshort : List Rat) (kernels : List (Array Rat))
+    (llong : List Int) (thr : Option Rat) :
+    SwapRel k sh (bandpass sh img lshort kernels llong thr)
+      (bandpass (swapAt k sh) img' (swapAt k lshort) (swapAt k kernels) (swapAt k llong) thr) := by
+  unfold bandpass
+  by_cases hlen : lshort.length ≠ sh.length ∨ kernels.length ≠ sh.length ∨ llong.length ≠ sh.length
+  · have hlen' : (swapAt k lshort).length ≠ (swapAt k sh).length ∨
+        (swapAt k kernels).length ≠ (swapAt k sh).length ∨
+        (swapAt k llong).length ≠ (swapAt k sh).length := by simpa using hlen
+    rw [if_pos hlen, if_pos hlen']
+    simp [SwapRel]
+  · have hlen' : ¬ ((swapAt k lshort).length ≠ (swapAt k sh).length ∨
+        (swapAt k kernels).length ≠ (swapAt k sh).length ∨
+        (swapAt k llong).length ≠ (swapAt k sh).length) := by simpa using hlen
+    rw [if_neg hlen, if_neg hlen']
+    have l1 : lshort.length = sh.length := Classical.not_not.mp (fun hh => hlen (Or.inl hh))
+    have l2 : kernels.length = sh.length :=
+      Classical.not_not.mp (fun hh => hlen (Or.inr (Or.inl hh)))
+    have l3 : llong.length = sh.length :=
+      Classical.not_not.mp (fun hh => hlen (Or.inr (Or.inr hh)))
+    rw [scaleClash_swapAt k lshort llong (by rw [l1, l3]), all_swapAt]
+    by_cases hc : scaleClash lshort llong = true
+    · rw [if_pos hc, if_pos hc]; simp [SwapRel]
+    · rw [if_neg hc, if_neg hc]
+      by_cases ho : ¬ llong.all isOdd = true
+      · rw [if_pos ho, if_pos ho]; simp [SwapRel]
+      · rw [if_neg ho, if_neg ho]
+        show IsSwap k sh _ _
+        apply isSwap_map _ (clip_zero _)
+        unfold diff
+        apply isSwap_subArr
+        · unfold lowpass
+          rw [zipFilt_swapAt k lshort kernels (by rw [l1, l2])]
+          exact passes_swapAt k sh _ (srcOK_zipFilt lshort kernels)
+            (by rw [length_zipFilt _ _ (by rw [l1, l2]), l1]) img img' himg
+        · unfold boxcarRaw
+          rw [map_swapAt]
+          exact passes_swapAt k sh _ (srcOK_mapBox llong) (by simpa using l3) img img' himg
+
+/-- an axis-exchanged image exists for every image, so `bandpass_swap_axes` is never vacuous;
+    in 2-D it is the executable transpose -/
+theorem exists_isSwap (k : Nat) (sh : List Nat) (img : Array Rat) (hsz : img.size = sh.prod) :
+    ∃ img', IsSwap k sh img img' := ⟨swapImg k sh img, isSwap_swapImg k sh img hsz⟩
+
+theorem transpose2_isSwap (H W : Nat) (img : Array Rat) (hsz : img.size = H * W) :
+    IsSwap 0 [H, W] img (transpose2 H W img) := isSwap_transpose2 H W img hsz
+
 /-! ## non-vacuity: a concrete 3 × 3 image, kernel (1/4, 1/2, 1/4), box 3 × 3, threshold 1 -/
 
 def exK : Array Rat := #[1/4, 1/2, 1/4]
@@ -455,5 +511,12 @@ example : ∃ e, bandpass [3, 3] exI [3, 1] [exK, exK] [3, 3] (some 1) = .error 
   bandpass_rejects _ _ _ _ _ _ 0 3 3 rfl rfl (by norm_num)
 example : ∃ e, bandpass [3, 3] exI [1, 1] [exK, exK] [3, 4] (some 1) = .error e :=
   bandpass_rejects_even _ _ _ _ _ _ 4 (by simp) rfl
+
+
+/-- a 3-D instance: shape 2 × 3 × 4, a valid multi-index, an axis-exchanged partner image -/
+example : Valid [2, 3, 4] [1, 2, 3] := by simp [Valid]
+example (img : Array Rat) (h : img.size = 24) : ∃ img', IsSwap 1 [2, 3, 4] img img' :=
+  exists_isSwap 1 [2, 3, 4] img (by simpa using h)
+example : swapAt 1 [2, 3, 4] = [2, 4, 3] := rfl
 
 end TrackpyV.Bandpass
